@@ -605,7 +605,34 @@ func checkRetryConservation(c *Ctx, r *Report) {
 				}
 				region[b] = true
 				for _, s := range b.Succs {
-					if loopBlocks[s] && loopCondBlock(s, loopBlocks) && len(s.Preds) == 1 {
+					// … the right operand of a compound condition kept in a variable is evaluated in a block that just jumps
+					// to the merge
+					jumpOnly := false
+					if _, isJ := lastInstr(s).(*ssa.Jump); isJ && len(s.Succs) == 1 {
+						jumpOnly = true
+						for _, in := range s.Instrs {
+							switch x := in.(type) {
+							case *ssa.Store, *ssa.MapUpdate, *ssa.Send, *ssa.Go, *ssa.Defer:
+								jumpOnly = false
+							case *ssa.Call:
+								if bi, ok := x.Call.Value.(*ssa.Builtin); !ok || bi.Name() != "len" {
+									jumpOnly = false
+								}
+							}
+						}
+					}
+					if !loopBlocks[s] || !(loopCondBlock(s, loopBlocks) || jumpOnly) {
+						continue
+					}
+					// a single way in, or the merge of a compound condition kept in a variable (`exhausted := a || b`):
+					// every way in comes from the condition region itself
+					fromRegion := true
+					for _, p := range s.Preds {
+						if !region[p] && p != b {
+							fromRegion = false
+						}
+					}
+					if len(s.Preds) == 1 || fromRegion {
 						work = append(work, s)
 					}
 				}
